@@ -611,6 +611,9 @@ func (d *DI) effectiveScope(name string) string {
 	return d.defaultScope(name)
 }
 
+// EffectiveScope is the scope of name under the current definitions (after overrides).
+func (d *DI) EffectiveScope(name string) string { return d.effectiveScope(name) }
+
 // reach computes the services reachable from name under the current definitions.
 func (d *DI) reach(name string) map[string]bool {
 	seen := map[string]bool{}
@@ -1094,7 +1097,11 @@ func (d *DI) Getters() []GetterInfo {
 			if path == "" {
 				full = "fx/g/?" // the container's own package; the caller substitutes the real path
 			}
-			t = r.Ptr + full + "." + r.Name
+			name := r.Name
+			if a, ok := LocalAliases[name]; ok && path == "" {
+				name = a
+			}
+			t = r.Ptr + full + "." + name
 			if r.Import == "" && isPredeclared(r.Name) {
 				t = r.Ptr + r.Name
 			}
@@ -1103,6 +1110,14 @@ func (d *DI) Getters() []GetterInfo {
 	}
 	return out
 }
+
+// LocalAliases: alias declarations some hand-built cases add to the container's own package (LocalAliasSource);
+// their names are identifiers the getter templates use for parameters, results and locals (c and s are variables of
+// the local catalog already).
+var LocalAliases = map[string]string{"ctx": "Obj", "err": "Obj", "result": "Obj", "r": "Obj"}
+
+// LocalAliasSource declares LocalAliases.
+const LocalAliasSource = "type (\n\tctx = Obj\n\terr = Obj\n\tresult = Obj\n\tr = Obj\n)\n"
 
 func isPredeclared(n string) bool {
 	switch n {
